@@ -98,7 +98,13 @@ VersionsWellFormed(D) ==
 (***************************************************************************)
 ElfFeats == {"esi", "tab", "fn", "fwdk", "fwdv", "fwdn", "pers", "lsda", "cfix", "dq", "ref", "dda", "ddb", "ddn"}
 PeFeats == {"imp", "exp", "fn", "fwdk", "fwdv", "fwdn", "pers", "cfix", "dq", "ref", "dda", "ddb", "ddn"}
-Feats(fmt) == IF fmt = "elf" THEN ElfFeats ELSE PeFeats
+\* forwarding features of the modes "fwd" and "combo": a second forwarder to the symbol
+\* (fwdv2: pv2_s -> s, so that several keys share one value), the symbol forwarding to
+\* s1 (fwd1) or to the bystander keep (fwdkeep, which keep2 forwards to as well)
+MoreFwd == {"fwdv2", "fwd1", "fwdkeep"}
+Feats(fmt) == (IF fmt = "elf" THEN ElfFeats ELSE PeFeats) \cup MoreFwd
+\* combo mode (retarget s1 -> s2 registered in the same context): no SymAddrAddr uses
+ComboFeats(fmt) == (Feats(fmt) \ {"dda", "ddb", "ddn", "fwdn", "fwd1", "fwdkeep"})
 \* lattice mode: K1 (3 or 4) representative features, one per kind of container
 LatticeFeats(fmt) ==
   (IF fmt = "elf" THEN {"esi", "fwdv", "dq"} ELSE {"imp", "fwdv", "dq"})
@@ -165,7 +171,32 @@ Configs ==
               f3 \in SUBSET LatticeFeats(fmt)}
            : fmt \in Fmts}
 
-ValidCfg(c) == \A i \in DOMAIN c.syms : c.syms[i].f \subseteq Feats(c.fmt)
+    \* several symbolForwarding keys share one value; the shared value is s1 or keep
+    [] Mode = "fwd" ->
+         UNION {
+           {[fmt |-> fmt, extra |-> {},
+             syms |-> << S("s1", f1 \cup base, 0), S("s2", f2, 0), S("s3", f3, 0) >>]
+            : f1 \in SUBSET {"fwdv", "fwdv2"}, base \in {{}, {IF fmt = "elf" THEN "esi" ELSE "imp"}},
+              f2 \in {{}, {"fwd1"}, {"fwdkeep"}, {"fwdv"}, {"fwd1", "fwdv"}},
+              f3 \in {{}, {"fwd1"}, {"fwdkeep"}}}
+           : fmt \in Fmts}
+    \* retarget s1 -> s2 and delete in one context
+    [] Mode = "combo" ->
+         UNION {
+           {[fmt |-> fmt, extra |-> IF fmt = "elf" THEN {1} ELSE {},
+             syms |-> << S("s1", f1, IF fmt = "elf" THEN 2 ELSE 0),
+                         S("s2", f2, IF fmt = "elf" THEN 2 ELSE 0), S("s3", {}, 0) >>]
+            : f1 \in UpTo(ComboFeats(fmt), K1),
+              f2 \in UpTo({IF fmt = "elf" THEN "esi" ELSE "imp", "dq", "fwdv"}, K2)}
+           : fmt \in Fmts}
+
+\* one symbolForwarding entry per key (fwdk may be overridden by fwdn, as rendered)
+ValidCfg(c) ==
+  \A i \in DOMAIN c.syms :
+     /\ c.syms[i].f \subseteq Feats(c.fmt)
+     /\ Cardinality(c.syms[i].f \cap {"fwdk", "fwdn", "fwd1", "fwdkeep"}) <= 1
+        \/ c.syms[i].f \cap {"fwdk", "fwdn", "fwd1", "fwdkeep"} = {"fwdk", "fwdn"}
+     /\ (i = 1 => "fwd1" \notin c.syms[i].f)
 
 (***************************************************************************)
 (* The abstract module of a configuration (the renderer builds it for      *)
@@ -198,7 +229,8 @@ Mod(c) ==
       hosts == {i \in I : c.syms[i].f \cap {"ref", "pers", "lsda", "cfix"} # {}}
   IN  [ syms |-> {nm(i) : i \in I} \cup {"keep", "keep2"} \cup {host(i) : i \in hosts}
                  \cup {"pk_" \o nm(i) : i \in {j \in I : has(j, "fwdk")}}
-                 \cup {"pv_" \o nm(i) : i \in {j \in I : has(j, "fwdv")}},
+                 \cup {"pv_" \o nm(i) : i \in {j \in I : has(j, "fwdv")}}
+                 \cup {"pv2_" \o nm(i) : i \in {j \in I : has(j, "fwdv2")}},
         esi |-> {<<nm(i), "FUNC">> : i \in {j \in I : has(j, "esi")}}
                 \cup (IF c.fmt = "elf" THEN {<<"keep", "FUNC">>} ELSE {}),
         tix |-> {<<nm(i), i>> : i \in {j \in I : has(j, "tab")}}
@@ -217,17 +249,32 @@ Mod(c) ==
         fwd |-> {<<"keep2", "keep">>}
                 \cup {<<nm(i), "pk_" \o nm(i)>> : i \in {j \in I : has(j, "fwdk") /\ ~has(j, "fwdn")}}
                 \cup {<<nm(i), nxt(i)>> : i \in {j \in I : has(j, "fwdn")}}
-                \cup {<<"pv_" \o nm(i), nm(i)>> : i \in {j \in I : has(j, "fwdv")}},
+                \cup {<<"pv_" \o nm(i), nm(i)>> : i \in {j \in I : has(j, "fwdv")}}
+                \cup {<<"pv2_" \o nm(i), nm(i)>> : i \in {j \in I : has(j, "fwdv2")}}
+                \cup {<<nm(i), nm(1)>> : i \in {j \in I : has(j, "fwd1")}}
+                \cup {<<nm(i), "keep">> : i \in {j \in I : has(j, "fwdkeep")}},
         cfi |-> UNION {cfiOf(i) : i \in I},
         sx |-> UNION {sxOf(i) : i \in I}
                \cup {[blk |-> "w_keep", o |-> 0, f |-> "C", s1 |-> "keep", s2 |-> "", add |-> 0]},
         rest |-> <<>> ]
 
+\* A retarget old -> new registered in the same RewritingContext is applied before
+\* the deletions: every retargetable mention of old (SymAddrConst operand, CFI
+\* directive, symbolForwarding value) names new when the deletions run (Retarget.tla).
+Ret(D, old, new) ==
+  [D EXCEPT
+     !.sx = {IF e.f = "C" /\ e.s1 = old THEN [e EXCEPT !.s1 = new] ELSE e : e \in @},
+     !.cfi = {IF c.sym = old THEN [c EXCEPT !.sym = new] ELSE c : c \in @},
+     !.fwd = {IF p[2] = old THEN <<p[1], new>> ELSE p : p \in @}]
+\* c.ret is <<>> or <<old, new>>
+ModR(c) == IF c.ret = <<>> THEN Mod(c) ELSE Ret(Mod(c), c.ret[1], c.ret[2])
+
 (***************************************************************************)
 (* State machine                                                           *)
 (***************************************************************************)
 Init ==
-  /\ cfg \in {[fmt |-> k.fmt, extra |-> k.extra, syms |-> k.syms, reqs |-> <<>>, rn |-> ""] : k \in Configs}
+  /\ cfg \in {[fmt |-> k.fmt, extra |-> k.extra, syms |-> k.syms, reqs |-> <<>>, rn |-> "",
+               ret |-> IF Mode = "combo" THEN <<"s1", "s2">> ELSE <<>>] : k \in Configs}
   /\ ValidCfg(cfg)
   /\ st = [stage |-> "pre", out |-> "", pre |-> <<>>, mod |-> <<>>]
 
@@ -235,7 +282,7 @@ Init ==
 Delete(rn, reqs) ==
   /\ st.stage = "pre"
   /\ \A i \in DOMAIN reqs : \E j \in DOMAIN cfg.syms : cfg.syms[j].n = reqs[i][1]
-  /\ LET D == Mod(cfg)
+  /\ LET D == ModR(cfg)
          out == Outcome(D, reqs)
      IN  /\ cfg' = [cfg EXCEPT !.reqs = reqs, !.rn = rn]
          /\ st' = [stage |-> "post", out |-> out, pre |-> D,
@@ -289,9 +336,22 @@ Theorems(D, N, del) ==
   /\ Expected(N, del) = N
   /\ \A a \in SUBSET del : Expected(Expected(D, a), del \ a) = N
 
+\* retarget old -> new and delete in one context: D0 the module as rendered, D the
+\* retargeted one (the pre-state of the deletions), N the final one
+ComboTheorems(D0, D, N, old, new, del, out) ==
+  \* nothing uses old any more, so deleting it (alone or with others) is not refused on its account
+  /\ ~UsedIn(D, old)
+  /\ (del = {old} => out = "")
+  \* every former use of old names new in the final module (unless new was deleted too)
+  /\ (out = "" /\ new \notin del) =>
+        /\ \A e \in D0.sx : (e.f = "C" /\ e.s1 = old) => [e EXCEPT !.s1 = new] \in N.sx
+        /\ \A c \in D0.cfi : c.sym = old => [c EXCEPT !.sym = new] \in N.cfi
+        /\ \A p \in D0.fwd : (p[2] = old /\ p[1] \notin del) => <<p[1], new>> \in N.fwd
+  /\ (out = "" /\ old \in del) => old \notin MentionedNames(N)
+
 CaseJson ==
   [family |-> "delsym", fmt |-> cfg.fmt, extra |-> cfg.extra, syms |-> cfg.syms,
-   reqs |-> cfg.reqs, rn |-> cfg.rn, mode |-> Mode]
+   reqs |-> cfg.reqs, rn |-> cfg.rn, mode |-> Mode, ret |-> cfg.ret]
 
 PostOk ==
   st.stage = "post" =>
@@ -303,6 +363,7 @@ PostOk ==
         /\ Forced(cfg.reqs) \subseteq del
         /\ (st.out = "" => Theorems(D, st.mod, del))
         /\ (st.out # "" => st.mod = D)
+        /\ (cfg.ret # <<>> => ComboTheorems(Mod(cfg), D, st.mod, cfg.ret[1], cfg.ret[2], del, st.out))
 
 EmitCase == (Emit /\ st.stage = "post") => PrintT("CASE " \o ToJson(CaseJson))
 
